@@ -177,6 +177,8 @@ def run_case(case) -> Outcome:
         classes.append("default-used")
     if cls["generic"]:
         classes.append("generic-class")
+    if src.startswith("from __future__"):
+        classes.append("postponed-annotations")
     for kname in ("alias_param", "alias", "self", "union", "literal", "generic", "tuple_fixed", "set", "protocol"):
         if kname in kinds:
             classes.append(kname)
@@ -272,7 +274,8 @@ def gen_class(draw, broken_defaults=True, min_attrs=1):
                 default = d
                 default_ok = False
         attrs.append({"name": f"a{i}", "term": term, "default": default, "default_ok": default_ok})
-    return {"generic": generic, "targ": targ, "attrs": attrs}, allow_self
+    future = (not generic) and draw(st.integers(0, 5)) == 0  # module with `from __future__ import annotations`
+    return {"generic": generic, "targ": targ, "attrs": attrs, "future": future}, allow_self
 
 
 def gen_args(draw, cls, mode, omit_required=True):
